@@ -240,9 +240,17 @@ package updown
 //@   requires sorted(list)
 //@   ensures result == exists(j, 0, len(list), list[j] == snp)
 
-//@ # whichWay: direction and threshold arithmetic from the 4-entry table (the meaning of the table entries in terms of
-//@ # alignment columns is NOT decided here: bounded oracle only)
+//@ # whichWay: direction and threshold arithmetic from the 4-entry table, and - per SNP, judged at the end of every
+//@ # iteration against predicates computed from the DATA at its start - what each table entry counts: a query SNP goes to
+//@ # table[3] iff its position lies in an ambiguity tract of the TARGET, else to table[1] iff the target carries the same
+//@ # SNP, else to table[0] (and its position to d); a target SNP goes to table[3] iff its position lies in an ambiguity
+//@ # tract of the QUERY, else to table[2] iff the query does not carry it, and then adds to the distance iff its position
+//@ # is not already in d.
 //@ func whichWay
+//@   ghost gAmb bool = false
+//@   ghost gOv bool = false
+//@   ghost gInD bool = false
+//@   ghost gBad bool = false
 //@   requires len(q.snps) == len(q.snpsPos) && len(t.snps) == len(t.snpsPos) && len(q.ambs) % 2 == 0 && len(t.ambs) % 2 == 0
 //@   requires sorted(q.snpsSorted)
 //@   requires sorted(t.snpsSorted)
@@ -252,8 +260,14 @@ package updown
 //@     invariant freshslice(d) && forall(j, 0, len(d), exists(m, 0, range_i, d[j] == q.snpsPos[m]))
 //@     invariant forall(a, 0, len(d), forall(b, a + 1, len(d), d[a] <= d[b]))
 //@     invariant implies(len(d) > 0 && range_i > 0, d[len(d)-1] <= q.snpsPos[range_i-1])
+//@     do-start gAmb = exists(m, 0, len(t.ambs) / 2, q.snpsPos[i] >= t.ambs[2*m] && q.snpsPos[i] <= t.ambs[2*m+1]); gOv = exists(j, 0, len(t.snpsSorted), t.snpsSorted[j] == qsnp)
+//@     do-end if (table[3] == pre(1, table[3]) + 1) != gAmb { gBad = true }; if (table[1] == pre(1, table[1]) + 1) != (!gAmb && gOv) { gBad = true }; if (table[0] == pre(1, table[0]) + 1) != (!gAmb && !gOv) { gBad = true }
+//@     invariant [c08.query.snp.classified] !gBad
 //@   loop 2:
 //@     invariant table[0] >= 0 && table[1] >= 0 && table[2] >= 0 && table[3] >= 0 && table[0] == len(d) && 0 <= d_plus && d_plus <= table[2] && table[2] <= range_i
+//@     do-start gAmb = exists(m, 0, len(q.ambs) / 2, t.snpsPos[i] >= q.ambs[2*m] && t.snpsPos[i] <= q.ambs[2*m+1]); gOv = exists(j, 0, len(q.snpsSorted), q.snpsSorted[j] == tsnp); gInD = exists(j, 0, len(d), d[j] == t.snpsPos[i])
+//@     do-end if (table[3] == pre(2, table[3]) + 1) != gAmb { gBad = true }; if (table[2] == pre(2, table[2]) + 1) != (!gAmb && !gOv) { gBad = true }; if (d_plus == pre(2, d_plus) + 1) != (!gAmb && !gOv && !gInD) { gBad = true }
+//@     invariant [c08.target.snp.classified] !gBad
 //@   ensures 0 <= result1 && result1 <= 3 && result2 >= -1
 //@   ensures [local.threshold] (result2 == -1) == (float64(table[3]) / float64(sum) > float64(thresh))
 //@   ensures [local.direction] implies(result2 != -1, result1 == ite(table[0] == 0 && table[2] == 0, 0, ite(table[0] > 0 && table[2] == 0, 1, ite(table[0] == 0, 2, 3))))
